@@ -7,7 +7,7 @@ use crate::model::{MV, json};
 use proptest::prelude::*;
 use serde::{Deserialize, Serialize};
 
-pub const RULE: &str = "programs from a recursion grammar: shape in {self, mutual (2 and 3 functions), via / where / map / filter / reduce callback, the callee handed straight to into / where / element-wise via (no call expression in the cycle), do-block body (also with a captured name and a helper defined after its user), anonymous cycle through a record method / a list element / self-application} x per-call expression nesting 1..32 of kind {arithmetic chain, list nesting, record nesting, conditionals, call-argument nesting, mixture, field / index access under ??}, each also in a source that starts with a non-ASCII comment, x {unbounded, bounded with depth 100..900 for plain shapes}; enumerated: every shape x nesting {1, 2, 4, 8} x 2 kinds (runaway and 200-300 deep) and nesting {16, 24, 32} x all kinds (runaway; 900 deep for plain shapes); random beyond that; single-line shapes are also typed statement by statement into the interactive CLI on a pseudo-terminal (same 8 MiB stack limit). Each is run in the release `blots` binary built from the working tree with RLIMIT_STACK = 8 MiB (the default main-thread stack), RLIMIT_AS 6 GiB and a 60 s timeout. Unbounded programs must exit with status 1 and report `maximum call depth`; a signal or exit 101 is a violation. Bounded programs must exit 0 with the arithmetically expected value. Non-trivial = per-call nesting >= 2 or a callback / mutual / anonymous shape; distinct by program text.";
+pub const RULE: &str = "programs from a recursion grammar: shape in {self, mutual (2 and 3 functions), via / where / map / filter / reduce callback, the callee handed straight to into / where / element-wise via (no call expression in the cycle), do-block body (also with a captured name and a helper defined after its user), anonymous cycle through a record method / a list element / self-application, a named function made in a factory's do-block and used after the block has ended} x per-call expression nesting 1..32 of kind {arithmetic chain, list nesting, record nesting, conditionals, call-argument nesting, mixture, field / index access under ??, operand of a record / list / argument spread}, each also in a source that starts with a non-ASCII comment, x {unbounded, bounded with depth 100..900 for plain shapes}; enumerated: every shape x nesting {1, 2, 4, 8} x 2 kinds (runaway and 200-300 deep) and nesting {16, 24, 32} x all kinds (runaway; 900 deep for plain shapes); random beyond that; single-line shapes are also typed statement by statement into the interactive CLI on a pseudo-terminal (same 8 MiB stack limit). Each is run in the release `blots` binary built from the working tree with RLIMIT_STACK = 8 MiB (the default main-thread stack), RLIMIT_AS 6 GiB and a 60 s timeout. Unbounded programs must exit with status 1 and report `maximum call depth`; a signal or exit 101 is a violation. Bounded programs must exit 0 with the arithmetically expected value. Non-trivial = per-call nesting >= 2 or a callback / mutual / anonymous shape; distinct by program text.";
 pub const ASSUMPTIONS: &[&str] = &[
     "only the real binary decides; a timeout or memory-limit hit is counted as inconclusive, never as a violation",
     "error-swallowing sort_by callbacks are excluded (they turn runaway recursion into exponential work and are not in the statement's list)",
@@ -34,7 +34,7 @@ fn wrap(inner: &str, nesting: u8, kind: u8) -> (String, u32) {
     let mut s = inner.to_string();
     let mut adds = 0;
     for level in 0..nesting {
-        let k = if kind == 5 { level % 5 } else if kind >= 8 { kind - 8 } else { kind };
+        let k = if kind == 5 { level % 5 } else if (8..16).contains(&kind) { kind - 8 } else { kind };
         s = match k {
             0 => {
                 adds += 1;
@@ -46,6 +46,10 @@ fn wrap(inner: &str, nesting: u8, kind: u8) -> (String, u32) {
             // an access that is the left operand of `??`
             6 => format!("({{a: {}}}.a ?? 0)", s),
             7 => format!("([{}][0] ?? 0)", s),
+            // the recursive call is the operand of a spread: in a record, a list, an argument list
+            16 => format!("{{...{{a: {}}}}}.a", s),
+            17 => format!("[...[{}]][0]", s),
+            18 => format!("idf(...[{}])", s),
             _ => format!("idf({})", s),
         };
     }
@@ -82,7 +86,7 @@ pub fn program(c: &Case) -> (String, Option<f64>) {
     };
     // kinds 8.. are kinds 0.. in a source that starts with a non-ASCII comment (byte offsets and
     // character offsets of the call sites differ)
-    let mut src = if c.kind >= 8 { String::from("// 再帰の深さを数える — считаем глубину рекурсии — βάθος\nidf = q => q\n") } else { String::from("idf = q => q\n") };
+    let mut src = if (8..16).contains(&c.kind) { String::from("// 再帰の深さを数える — считаем глубину рекурсии — βάθος\nidf = q => q\n") } else { String::from("idf = q => q\n") };
     let start = c.bounded.map(|d| d as i64).unwrap_or(0);
     let mut per_level = 1;
     match c.shape {
@@ -110,6 +114,12 @@ pub fn program(c: &Case) -> (String, Option<f64>) {
             let (b, a) = body("f");
             per_level = a;
             src.push_str(&format!("k0 = 0\nf = n => do {{\n  m = n + k0\n  return later({})\n}}\nlater = q => q\noutput r = f({})\n", b.replace("n + 1", "m + 1").replace("n - 1", "m - 1").replace("n <= 0", "m <= 0"), start));
+        }
+        16 => {
+            // a named function made inside a do-block of a factory, used after the block has ended
+            let (b, a) = body("loop_fn");
+            per_level = a;
+            src.push_str(&format!("mk = () => do {{\n  loop_fn = n => {}\n  return loop_fn\n}}\noutput r = mk()({})\n", b, start));
         }
         9 => {
             let (b, a) = body("counter.next");
@@ -157,7 +167,7 @@ impl Check for Recursion {
     }
     fn run(&self, c: &Case, ctx: &mut Ctx) -> Outcome {
         let (src, expected) = program(c);
-        let shape = ["self", "mutual2", "mutual3", "via", "where", "map", "filter", "reduce", "do-block", "record-method", "list-element", "self-application", "into", "where-direct", "zip-via", "late-helper-do-block"][c.shape as usize % 16];
+        let shape = ["self", "mutual2", "mutual3", "via", "where", "map", "filter", "reduce", "do-block", "record-method", "list-element", "self-application", "into", "where-direct", "zip-via", "late-helper-do-block", "escaped-do-block-function"][c.shape as usize % 17];
         let bucket = match c.nesting {
             0..=1 => "nesting1",
             2..=4 => "nesting2-4",
@@ -248,10 +258,10 @@ impl Recursion {
 }
 
 pub fn strategy() -> BoxedStrategy<Case> {
-    (0u8..16, prop_oneof![3 => 1u8..5, 2 => 5u8..13, 1 => 13u8..33], 0u8..16, prop::option::weighted(0.35, 100u16..900))
+    (0u8..17, prop_oneof![3 => 1u8..5, 2 => 5u8..13, 1 => 13u8..33], 0u8..19, prop::option::weighted(0.35, 100u16..900))
         .prop_map(|(shape, nesting, kind, bounded)| {
             // bounded variants: plain shapes only (callback shapes consume several call levels per step)
-            let bounded = if matches!(shape, 0 | 1 | 2 | 8 | 9 | 10 | 11 | 12 | 15) { bounded } else { bounded.map(|d| d.min(250)) };
+            let bounded = if matches!(shape, 0 | 1 | 2 | 8 | 9 | 10 | 11 | 12 | 15 | 16) { bounded } else { bounded.map(|d| d.min(250)) };
             Case { shape, nesting, kind, bounded, repl: false }
         })
         .boxed()
@@ -260,7 +270,14 @@ pub fn strategy() -> BoxedStrategy<Case> {
 pub fn run(ctx: &mut Ctx) {
     // every shape x a few nestings, unbounded and bounded(300)
     let mut fixed = Vec::new();
-    for shape in 0..16u8 {
+    for shape in 0..17u8 {
+        // the recursive call as the operand of a record / list / argument spread
+        for nesting in [1u8, 3] {
+            for kind in [16u8, 17, 18] {
+                fixed.push(Case { shape, nesting, kind, bounded: None, repl: false });
+                fixed.push(Case { shape, nesting, kind, bounded: Some(if matches!(shape, 3..=7 | 13 | 14) { 150 } else { 250 }), repl: false });
+            }
+        }
         for nesting in [1u8, 2, 4, 8] {
             for kind in [0u8, 4, 6, 7, 8, 13] {
                 fixed.push(Case { shape, nesting, kind, bounded: None, repl: false });
@@ -272,7 +289,7 @@ pub fn run(ctx: &mut Ctx) {
             for kind in 0u8..6 {
                 fixed.push(Case { shape, nesting, kind, bounded: None, repl: false });
             }
-            if matches!(shape, 0 | 1 | 2 | 8 | 9 | 10 | 11 | 12 | 15) {
+            if matches!(shape, 0 | 1 | 2 | 8 | 9 | 10 | 11 | 12 | 15 | 16) {
                 fixed.push(Case { shape, nesting, kind: 0, bounded: Some(900), repl: false });
                 fixed.push(Case { shape, nesting, kind: 5, bounded: Some(900), repl: false });
             }
